@@ -1049,7 +1049,7 @@ fn main() {
             chals: vec![0, 1],
         });
     }
-    let n = args.cases(4_000, 120_000);
+    let n = args.cases(4_000, 100_000);
     for i in 0..n {
         ctx.push(gen_case(args.seed, i));
     }
